@@ -11,6 +11,7 @@ CHECKS = {
     "C05": ps.check_C05,
     "C06": ps.check_C06,
     "C07": ps.check_C07,
+    "C08": pp.check_C08,
     "C09": pp.check_C09,
     "C10": ps.check_C10,
     "C11": ps.check_C11,
